@@ -1011,7 +1011,7 @@ func runC09(c *Ctx, r *Report) {
 	c09R8(c, r, "C09.R8")
 	c09R9(c, r, "C09.R9")
 	c09Reader(c, r, "C09.R10")
-	nilFieldContradictions(c, r, "C09.R11", 3, func(fn *ssa.Function) bool { // the server loop and the virtual connection: a nil timer ends the loop
+	nilFieldContradictions(c, r, "C09.R11", 1, func(fn *ssa.Function) bool { // the server loop and the virtual connection: a nil timer ends the loop
 		return fn.Pkg != nil && fn.Pkg.Pkg.Path() == modPath+"/layer4"
 	})
 	c05R7(c, r, "C09.R12")  // setting the deadline of a virtual connection never blocks (the association's handler, its queue and then the server loop would wait with it)
@@ -2460,10 +2460,25 @@ func c13R10(c *Ctx, r *Report, rule string) {
 		if !ok {
 			continue
 		}
-		// the condition (possibly one leg of a && chain) is a call of Temporary on the error
+		// the condition (possibly one leg of a && chain) is a call of Temporary on the error, or of a helper of the
+		// package whose answer derives from one (the loop's evaluation, C13.R11, decides what the answer means)
 		call, ok := ifi.Cond.(*ssa.Call)
-		if !ok || !call.Call.IsInvoke() || call.Call.Method.Name() != "Temporary" {
+		if !ok {
 			continue
+		}
+		isTemp := func(cl *ssa.Call) bool { return cl.Call.IsInvoke() && cl.Call.Method.Name() == "Temporary" }
+		viaHelper := false
+		if !isTemp(call) {
+			if callee := call.Call.StaticCallee(); callee != nil && callee.Pkg == fn.Pkg && len(callee.Blocks) > 0 {
+				for _, ci2 := range callsIn(callee) {
+					if c2, ok := ci2.(*ssa.Call); ok && isTemp(c2) && callee.Signature.Results().Len() == 1 {
+						viaHelper = true // (the answer depends on it by data or by control: `t.Temporary() && !closed`)
+					}
+				}
+			}
+			if !viaHelper {
+				continue
+			}
 		}
 		// from the true edge the Accept call is reachable again without leaving the loop
 		for blk := range reachableFrom(b.Succs[0], true) {
